@@ -60,3 +60,28 @@ Theorem C10_launch_once : forall c,
   NoDup (launch c).
 Proof. exact launch_nodup. Qed.
 Print Assumptions C10_launch_once.
+
+(* ---------- connector consumers inside the engine (connector.go; the same consume loop as every other consumer) ---------- *)
+From WF Require Import model.Base model.EngineBase model.Engine proofs.HandlerFacts proofs.Delivery proofs.DeliveryProps.
+
+(* For EVERY configuration and history (any faults, crashes, rewinds, duplicated deliveries; no hypothesis): the committed position
+   of shard i of n of connector cid never passes an event of that connector that the shard does not skip, unless the connector
+   function was invoked with that event and returned nil. With C10_shard_partition (exactly one shard does not skip an event ID)
+   every connector event is handled by exactly one shard ... *)
+Theorem C10_connector_event_handled_by_its_shard : forall c ops cid i n j e,
+  (j < get_cursor (fst (run_ops c ops)) (EConn cid i n))%nat -> nth_error (w_log (fst (run_ops c ops))) j = Some e ->
+  e_topic e = TConn cid -> shard_skip i n (e_id e) = false ->
+  exists pers now, In (TUser (UFConn cid) (conn_view e) pers now UOk) (snd (run_ops c ops)).
+Proof.
+  intros c ops cid i n j e Hj He Ht Hs.
+  destruct (position_never_passes_unhandled c ops (EConn cid i n) j e Hj He Ht Hs) as (t & Hin & (pers & now & ->)).
+  exists pers, now. exact Hin.
+Qed.
+Print Assumptions C10_connector_event_handled_by_its_shard.
+
+(* ... and acknowledged unhandled by the others (every state) *)
+Theorem C10_other_shards_acknowledge_unhandled : forall c inst cid i n idx e s,
+  shard_skip i n (e_id e) = true ->
+  after_lag c inst (EConn cid i n) idx e s = (p_ack (EConn cid i n) idx e ;;; ret PRun) s.
+Proof. intros c inst cid i n idx e s H. apply after_lag_filtered. exact H. Qed.
+Print Assumptions C10_other_shards_acknowledge_unhandled.
